@@ -370,13 +370,16 @@ func (f *File) startSegmentIfNeeded(b Box, boxStartPos uint64) {
 			}
 		}
 	case f.tfra != nil:
-		if boxStartPos == uint64(f.tfra.Entries[segIdx].MoofOffset) {
+		if segIdx < len(f.tfra.Entries) && boxStartPos == uint64(f.tfra.Entries[segIdx].MoofOffset) {
 			segStart = true
 		}
 	case (f.fileDecFlags & DecStartOnMoof) != 0:
 		segStart = true
 	default:
 		segStart = (segIdx == 0)
+	}
+	if segIdx == 0 {
+		segStart = true // The first fragment always needs a segment to belong to
 	}
 	if segStart {
 		f.isFragmented = true
